@@ -435,7 +435,7 @@ def emit(repo, areas):
         if area not in areas or not (gen_dir / (area + ".lean")).exists():
             continue
         rng = random.Random("20260925-" + area)
-        d, e, x = f(rng, z, int(os.environ.get("FN_SELFTEST_CASES", "60")))
+        d, e, x = f(rng, z, int(os.environ.get("FN_SELFTEST_CASES", "40")))
         imports.append("import Zc.GenFn.%s" % area)
         defs.append(d)
         exprs += e
@@ -460,15 +460,17 @@ def area_key(lean_dir, repo, area):
     return h.hexdigest()
 
 
-def run(lean_dir, repo):
-    """-> (ok, message, number of compared call sequences); results are cached per area by content hash"""
+def run(lean_dir, repo, skip=()):
+    """-> (ok, message, number of compared call sequences); results are cached per area by content hash.
+    `skip`: areas whose translation failed (their GenFn file is the committed one, not this tree's)"""
     lean_dir = pathlib.Path(lean_dir)
+    run.bad_areas = {}
     okfile = lean_dir / ".fn_selftest.ok"
     try:
         cache = json.loads(okfile.read_text())
     except (OSError, ValueError):
         cache = {}
-    areas = [a for a in AREAS if (lean_dir / "Zc" / "GenFn" / (a + ".lean")).exists()]
+    areas = [a for a in AREAS if (lean_dir / "Zc" / "GenFn" / (a + ".lean")).exists() and a not in skip]
     keys = {a: area_key(lean_dir, repo, a) for a in areas}
     stale = [a for a in areas if cache.get(a, {}).get("key") != keys[a]]
     total = sum(cache[a]["n"] for a in areas if a not in stale)
@@ -494,12 +496,18 @@ def run(lean_dir, repo):
     got = [l[4:] for l in out.split("\n") if l.startswith("=== ")]
     if r.returncode != 0 or len(got) != len(job["expected"]):
         return False, "lean evaluation of the gen_fn self-test failed: " + out[-600:], 0
+    bad = {}
     for i, (g, e) in enumerate(zip(got, job["expected"])):
-        if g != e:
-            return False, "generated function and real code disagree on %s self-test case %d: lean=%r python=%r" % (job["owner"][i], i, g[:300], e[:300]), i
+        if g != e and job["owner"][i] not in bad:
+            bad[job["owner"][i]] = "generated function and real code disagree on %s self-test case %d: lean=%r python=%r" % (job["owner"][i], i, g[:300], e[:300])
     for a in stale:
-        cache[a] = {"key": keys[a], "n": job["owner"].count(a)}
+        if a not in bad:
+            cache[a] = {"key": keys[a], "n": job["owner"].count(a)}
     okfile.write_text(json.dumps(cache))
+    if bad:
+        # a disagreement concerns one area: reported per area (`run.bad_areas`), so that only the properties importing it break
+        run.bad_areas = bad
+        return False, "; ".join(bad.values()), 0
     return True, "ok", total + len(got)
 
 
